@@ -68,6 +68,9 @@ class SN(ASTNode):
     Tag: str = "t"       # a field name that sorts BEFORE "__type"
     _Hidden__x: int = 0  # what a name-mangled private attribute looks like
 
+    def __len__(self) -> int:  # container-like: falsy in a boolean context while `items` is empty (may still hold other children)
+        return len(self.items)
+
 
 class IntShift(Dialect):
     serialization_strategy = {int: {"serialize": lambda x: x + 1000, "deserialize": lambda x: x - 1000}}  # noqa: RUF012
@@ -202,6 +205,11 @@ def instances(clean: Clean):
             for mi, (path, _) in enumerate(clean.nmaps):
                 for fk in ("unknown-type", "wrong-field", "garbage"):
                     out.append((f"{DES[fmt]}[{opt}]!{fk}@{'/'.join(map(str, path))}", "des", (fmt, opt, (mi, fk))))
+        # malformed at depth 0: the whole document is not a node mapping (wrong type tag, a list, a scalar, an empty
+        # mapping, or text / bytes that the format's own decoder rejects)
+        for opt in ("none", "sort", "skip", "srcidx"):
+            for fk in ("unknown-type", "list", "scalar", "empty", "undecodable"):
+                out.append((f"{DES[fmt]}[{opt}]!{fk}@<document>", "des", (fmt, opt, ("root", fk))))
     return out
 
 
@@ -214,6 +222,9 @@ def core_instances(all_inst):
                 keep.append((name, kind, spec))
         elif kind == "ser" and fmt in ("dict", "yaml") and fault in ("k0", "k3", "k4") and opt in ("sort", "srcidx", "skip"):
             keep.append((name, kind, spec))
+        elif kind == "des" and fault[0] == "root":
+            if fmt in ("dict", "yaml") and opt in ("sort", "skip") and fault[1] in ("list", "undecodable"):
+                keep.append((name, kind, spec))
         elif kind == "des" and fmt in ("dict", "msgpck") and opt in ("sort", "srcidx") and fault[1] != "wrong-field" and fault[0] in (0, len(TAGS)):
             keep.append((name, kind, spec))
     return keep
@@ -283,7 +294,20 @@ def execute(rec, clean, inst, root, seqname):
         base_opt = None if opt in ("none", "dialect") else dict(OPTS[opt])
         payload = SN.as_dict(root, serialization_options=base_opt) if opt != "dialect" else root.as_dict(mashumaro_dialect=IntShift)
         payload = copy.deepcopy(payload)
-        if fault is not None:
+        encoded = None
+        if fault is not None and fault[0] == "root":
+            fk = fault[1]
+            if fk == "unknown-type":
+                payload[TYPE_KEY] = "NoSuchClass"
+            elif fk == "list":
+                payload = [payload, 1]
+            elif fk == "scalar":
+                payload = 17
+            elif fk == "empty":
+                payload = {}
+            else:
+                encoded = {"dict": "not a mapping", "json": b'{"a": [1', "msgpck": b"\xc1\xc1", "yaml": "a: [1"}[fmt]
+        elif fault is not None:
             mi, fk = fault
             maps = [(p, m) for p, m in mappings(payload) if m and p]
             if mi < len(maps):
@@ -297,7 +321,7 @@ def execute(rec, clean, inst, root, seqname):
                     set_at(payload, path, 17)
         kw = kwargs_for(DES[fmt], opt)
         try:
-            call(SN, DES[fmt], encode(fmt, payload), opt)
+            call(SN, DES[fmt], encode(fmt, payload) if encoded is None and not (fault and fault[0] == "root" and fault[1] == "undecodable") else encoded, opt)
             raised = None
         except Exception as e:  # noqa: BLE001
             raised = type(e).__name__
